@@ -105,10 +105,23 @@ def addPaths (ps : List PathE) : List PathE → List PathE
     let ps' := if ps.any (fun e => e.mod = q.mod) then ps else ps ++ [q]
     addPaths ps' qs
 
-/-- the check loop of `Bank.add`: some reference is already bound to a different class -/
+/-- `Meta.__eq__`: what counts as "the same class" — `other.__module__ == cls.__module__ and other.__qualname__ is
+cls.__qualname__`, NOT the identity of the class object: a class statement executed again (a factory function called
+twice, a class defined in a loop) yields the same provider.  `ClassId.qn` stands for the `__qualname__` string object;
+strings of the same code object and interned strings are identical objects (see `reloadMod` for what is not). -/
+def metaEq (a b : ClassId) : Bool := a.mod == b.mod && a.qn == b.qn
+
+/-- `Meta.__hash__`: `hash(cls.__module__) ^ hash(cls.__qualname__)` (by value; `hashOf` is any hash of names) -/
+def metaHash (hashOf : Nat → Nat) (a : ClassId) : Nat :=
+  (hashOf a.mod.pkg + (match a.mod.sub with
+    | some s => hashOf s + 1
+    | none => 0)) ^^^ hashOf a.qn
+
+/-- the check loop of `Bank.add`: some reference is already bound to a different class (`provider == self.provider[ref]`
+is `Meta.__eq__`) -/
 def collides (b : Bank) (c : ClassDef) : Bool :=
   (refs c).any (fun r => match lookupRef r b.provider with
-    | some d => d != c.id
+    | some d => !metaEq d c.id
     | none => false)
 
 /-- the registration loop of `Bank.add` -/
@@ -181,6 +194,27 @@ def execMod (w : World) (st : St) (m : Mod) : Option (St × Option Err) :=
     else match execClasses st d.classes with
       | (st', some e) => some (st', some e)
       | (st', none) => some ({ st' with loaded := m :: st'.loaded }, none)
+
+/-- `importlib.reload(module)`: the module body is executed again by a NEW code object.  Every class statement creates a
+new class object with the same module and qualname; whether `Meta.__eq__` takes it for the registered class depends on
+the identity of the `__qualname__` string: identifier-like names are interned by the compiler (same object: the
+statement re-registers the class), dotted qualnames (`Outer.Inner`, `make.<locals>.Impl`) are constants of the new code
+object (another object: `Bank.add` finds the qualified reference bound to "a different class" and raises the collision
+error, leaving the old registration in place).  `interned` lists the qualnames of the first kind. -/
+def reloadClasses (interned : List Nat) (st : St) : List ClassDef → St × Option Err
+  | [] => (st, none)
+  | c :: rest =>
+    if !c.abstract && !interned.contains c.id.qn && !(c.alias.isSome && c.abstract)
+        && (lookupRef (.qual c.id) (getBank c.id st.banks).provider).isSome then (st, some .collision)
+    else match initSubclass st c with
+      | (st', some e) => (st', some e)
+      | (st', none) => reloadClasses interned st' rest
+
+/-- `none` = the module is not in `sys.modules` (or does not exist) -/
+def reloadMod (w : World) (interned : List Nat) (st : St) (m : Mod) : Option (St × Option Err) :=
+  match findMod m w with
+  | none => none
+  | some d => if st.loaded.contains m then some (reloadClasses interned st d.classes) else none
 
 /-- `_handle_fromlist(pkg, ['*'])`: the `__all__` sub-modules, a missing one is skipped -/
 def importSubs (w : World) (st : St) (pkg : Nat) : List Nat → St × Option Err
